@@ -14,7 +14,9 @@ Pols(n) == IF n = 1 THEN {<<g>> : g \in GroupSet(Scope)}
 AllGroups(dummy) == UNION {Pols(n) : n \in 1..MaxGroups(Scope)}
 All == IF Explicit(Scope) THEN SetToSeq(ExplicitPolicies(Scope))
        ELSE SetToSeq({Mk(d, x, gs) : d \in Defaults(Scope), x \in Targets(Scope), gs \in AllGroups(0)})
-Picked == SelectSeq([i \in 1..Len(All) |-> i], LAMBDA i : i % Stride = Offset)
+\* one case of every block of Stride consecutive ones, its place rotating from block to block (a fixed residue would follow
+\* the period of whichever field of the policies varies fastest in TLC's order and could leave out a whole sub-family)
+Picked == SelectSeq([i \in 1..Len(All) |-> i], LAMBDA i : (i + (i \div Stride)) % Stride = Offset)
 
 Events == EventSeq(Scope)
 OutInst(x) == [k |-> x.k, c |-> x.c, v |-> x.v, st |-> x.st, sf |-> x.sf]
